@@ -37,6 +37,24 @@ def RegularConnected (g : Graph) (act : Nat → Bool) : Prop :=
    ∀ u v : Fin g.n, 0 < activeDegree g act u.1 → 0 < activeDegree g act v.1 →
      (activeEdgeGraph g act).Reachable u v)
 
+/-- The active edges form exactly one simple path with at least one edge: distinct vertices
+`vs[0..len]`, distinct edges `es[0..len-1]`, `es[k]` joining `vs[k]` and `vs[k+1]`; or there is no
+active edge (as documented for `active_edges_single_path`). -/
+def SinglePath (g : Graph) (act : Nat → Bool) : Prop :=
+  (∀ e, e < g.edges.length → act e = false) ∨
+  ∃ (vs es : List Nat), vs.Nodup ∧ es.Nodup ∧ vs.length = es.length + 1 ∧ 1 ≤ es.length ∧
+    (∀ k, k < es.length → ∃ e a b, es[k]? = some e ∧ vs[k]? = some a ∧ vs[k + 1]? = some b ∧ Joins g e a b) ∧
+    (∀ e, e < g.edges.length → (act e = true ↔ e ∈ es))
+
+/-- Degree form for the path: all degrees in {0,1,2}, exactly two vertices of degree 1, and the active
+edges connected; or there is no active edge. -/
+def PathRegular (g : Graph) (act : Nat → Bool) : Prop :=
+  (∀ e, e < g.edges.length → act e = false) ∨
+  ((∀ v, v < g.n → activeDegree g act v ≤ 2) ∧
+   ((List.range g.n).filter fun v => activeDegree g act v == 1).length = 2 ∧
+   ∀ u v : Fin g.n, 0 < activeDegree g act u.1 → 0 < activeDegree g act v.1 →
+     (activeEdgeGraph g act).Reachable u v)
+
 /-- The vertices visited by the active edges. -/
 def visited (g : Graph) (act : Nat → Bool) (v : Nat) : Bool := decide (0 < activeDegree g act v)
 
